@@ -2,31 +2,31 @@
 import itertools
 import common
 
-ALPHABET = 'ABELPMDgwvrth'   # Refresh A, Refresh B, Refresh invalid-early, Refresh invalid-late, Destroy, log via tag, write via handle, register tag, obtain handle
+ALPHABET = 'ABWELPMDgGwvrth'   # Refresh A / B / W (W: the tag's logger takes WARN and above only), Refresh invalid (early, late, last step, plugin start), Destroy, log via tag below WARN / at WARN and above, write via handles, register tag, obtain handle
 
 
 def check(run):
     rng = run.rng
     quick = run.tier == 'quick'
-    L = 4 if quick else 6
+    L = 4 if quick else 5
     cases = common.corpus('C16')
     for n in range(1, L + 1):
         for t in itertools.product(ALPHABET, repeat=n):
             cases.append(''.join(t))
-    cases += ['LvLwLvLgLvLvLwLv', 'LvLvLvLvLvLvLvLvLvLv', 'ALvDLvBLvDLv', 'PADgPBDwPPAD', 'PDPADBD', 'MAgDMBwD', 'MMDA'] * 4
-    for _ in range(300 if quick else 20000):
-        cases.append(''.join(rng.choice(ALPHABET) for _ in range(rng.randint(8, 20))))
+    cases += ['LvLwLvLgLvLvLwLv', 'LvLvLvLvLvLvLvLvLvLv', 'ALvDLvBLvDLv', 'PADgPBDwPPAD', 'PDPADBD', 'MAgDMBwD', 'MMDA', 'WgGwDgGwWgD', 'WgDgAgDWGg', 'WPgGLgGDgG'] * 4
+    for _ in range(300 if quick else 200000):
+        cases.append(''.join(rng.choice(ALPHABET) for _ in range(rng.randint(6, 20))))
 
     def nontrivial(c, obs):
-        return ('A' in c or 'B' in c) and ('g' in c or 'w' in c or 'r' in c)
+        return ('A' in c or 'B' in c or 'W' in c) and ('g' in c or 'G' in c or 'w' in c or 'r' in c)
     res = common.simple_family_check(run, 'c16', 'c16/sequences', cases, nontrivial,
-        'ALL operation sequences up to length %d over {Refresh(valid sync A), Refresh(valid async B), Refresh(invalid early), Refresh(invalid late: unconfigured handle), Refresh(invalid at the last step: bad property value), Refresh(invalid: the Start of a plugin fails), Destroy, log via tag, write via handle (two configured handles and the handle named root), '
-        'register tag, obtain handle} plus random sequences of length 8-20; every call under recover and a 3 s watchdog; observable per operation: ok/err, where the event/bytes landed '
-        '(sink of A, sink of B, console, nowhere), registered/refused, panic, timeout; non-trivial = the sequence contains a valid Refresh and a log/write' % L,
+        'ALL operation sequences up to length %d over {Refresh(valid sync A), Refresh(valid async B), Refresh(valid W: the logger of the tag restricted to WARN and above), Refresh(invalid early), Refresh(invalid late: unconfigured handle), Refresh(invalid at the last step: bad property value), Refresh(invalid: the Start of a plugin fails), Destroy, log via tag at a level below WARN / at WARN and above (the entry points in turn), write via handle (two configured handles and the handle named root), '
+        'register tag, obtain handle} plus random sequences of length 6-20; every call under recover and a 3 s watchdog; observable per operation: ok/err, where the event/bytes landed '
+        '(sink of A, B or W, console, nowhere = dropped by the level range of W), registered/refused, panic, timeout; non-trivial = the sequence contains a valid Refresh and a log/write' % L,
         keep_empty=False, timeout=6000)
     if res:
         mo, io = res
-        bad = [(c, o) for c, o in zip(cases, io) if 'panic' in o or ('timeout' in o and 'abandoned' not in o) or 'nowhere' in o]
+        bad = [(c, o) for c, o, m in zip(cases, io, mo) if 'panic' in o or ('timeout' in o and 'abandoned' not in o) or o.count('nowhere') > m.count('nowhere')]
         run.obligations += 1
         if bad:
             for c, o in bad[:2]:
